@@ -51,6 +51,28 @@ pub fn with_ids(kind: &str, f: impl FnOnce() -> Option<Vec<(String, String)>>) -
     w.map(|mut w| { w.push(("ids".into(), kind.to_string())); w })
 }
 
+/// BGZF (bgzip): gzip members of at most 64 KiB each carrying the `BC` extra field with the block size; empty data gives the
+/// empty block that marks the end of a bgzip output.  Still plain multi-member gzip for any reader that ignores the extra field.
+pub fn bgzf_bytes(data: &[u8]) -> Vec<u8> {
+    use std::io::Write;
+    let block = |d: &[u8]| -> Vec<u8> {
+        let mut e = flate2::write::DeflateEncoder::new(Vec::new(), flate2::Compression::default());
+        e.write_all(d).unwrap();
+        let c = e.finish().unwrap();
+        let mut crc = flate2::Crc::new(); crc.update(d);
+        let bsize = (18 + c.len() + 8 - 1) as u16;
+        let mut b: Vec<u8> = vec![0x1f, 0x8b, 8, 4, 0, 0, 0, 0, 0, 0xff, 6, 0, b'B', b'C', 2, 0, (bsize & 0xff) as u8, (bsize >> 8) as u8];
+        b.extend(c);
+        b.extend_from_slice(&crc.sum().to_le_bytes());
+        b.extend_from_slice(&(d.len() as u32).to_le_bytes());
+        b
+    };
+    let mut out: Vec<u8> = Vec::new();
+    if data.is_empty() { out.extend(block(b"")); }
+    for ch in data.chunks(0xff00) { out.extend(block(ch)); }
+    out
+}
+
 pub fn write_fasta(path: &str, recs: &[Vec<u8>]) {
     use std::io::Write;
     let kind = in_kind();
@@ -88,26 +110,7 @@ pub fn write_fasta(path: &str, recs: &[Vec<u8>]) {
         e.write_all(data).unwrap();
         e.finish().unwrap()
     };
-    // BGZF (bgzip): gzip members of at most 64 KiB each carrying the `BC` extra field with the block size; an empty block marks
-    // the end of a bgzip output.  Still plain multi-member gzip for any reader that ignores the extra field.
-    let bgzf = |data: &[u8]| -> Vec<u8> {
-        let block = |d: &[u8]| -> Vec<u8> {
-            let mut e = flate2::write::DeflateEncoder::new(Vec::new(), flate2::Compression::default());
-            e.write_all(d).unwrap();
-            let c = e.finish().unwrap();
-            let mut crc = flate2::Crc::new(); crc.update(d);
-            let bsize = (18 + c.len() + 8 - 1) as u16;
-            let mut b: Vec<u8> = vec![0x1f, 0x8b, 8, 4, 0, 0, 0, 0, 0, 0xff, 6, 0, b'B', b'C', 2, 0, (bsize & 0xff) as u8, (bsize >> 8) as u8];
-            b.extend(c);
-            b.extend_from_slice(&crc.sum().to_le_bytes());
-            b.extend_from_slice(&(d.len() as u32).to_le_bytes());
-            b
-        };
-        let mut out: Vec<u8> = Vec::new();
-        if data.is_empty() { out.extend(block(b"")); }
-        for ch in data.chunks(0xff00) { out.extend(block(ch)); }
-        out
-    };
+    let bgzf = |data: &[u8]| -> Vec<u8> { bgzf_bytes(data) };
     if kind == "gzm" {
         // `cat a.gz b.gz` of two bgzip outputs (blocks + end marker each): the records are split between three runs of blocks,
         // and an empty block sits in the middle and at the end (ordinary multi-member gzip: kind fqgz)
